@@ -84,6 +84,16 @@ func runC04(p *eng.Prog, r *eng.Report, tier string) {
 	}
 	c04Deadline(c)
 	c04NoPanic(c, neg)
+	// a fault that panics is not "failing closed": decoder API misuse that
+	// panics on a peer's stream error (C04.6)
+	inNeg := map[*eng.Fn]bool{}
+	for _, f := range neg {
+		inNeg[f] = true
+	}
+	nd := tokenDecoderUnmarshaler(c, "C04.6", func(f *eng.Fn) bool {
+		return inNeg[f] || strings.HasPrefix(f.Short, "internal/stream.")
+	})
+	r.Note("C04.6: %d DecodeElement calls with an Unmarshaler target on a NewTokenDecoder decoder examined", nd)
 }
 
 var acceptC04 = append([]accept{
